@@ -766,7 +766,7 @@ def _rule3(ctx, rep, sh):
             for c in g.calls():
                 if prog.callee(c, g) == f.qname:
                     bad = sorted(k.arg for k in c.keywords if k.arg is not None and k.arg not in sh.hooks)
-                    r.check(not bad and len(c.args) <= 1, f'{g.qname}:_walk-keywords', where(g, c), 'keywords are hook parameters of _walk',
+                    r.check(not bad and len(c.args) <= len(f.params()), f'{g.qname}:_walk-keywords', where(g, c), 'keywords are hook parameters of _walk',
                             f'{name} calls _walk with unknown keyword(s) {bad}: TypeError, the rule fails for every package', nontrivial=False)
 
 
@@ -2302,10 +2302,14 @@ def _rule8(ctx, rep):
     ) as r:
         # by role: the nested function handed to _walk as the reference hook; else rule_11 itself
         hook = None
+        walk = prog.funcs.get('dawgie.tools.compliant._walk')
+        wparams = walk.params() if walk is not None else []
         for c in f.calls():
-            for k in c.keywords:
-                if k.arg == 'ifref' and isinstance(k.value, ast.Name):
-                    hook = f.children.get(k.value.id) or hook
+            bound = dict(zip(wparams, c.args)) if walk is not None and prog.callee(c, f) == walk.qname else {}
+            bound.update({k.arg: k.value for k in c.keywords if k.arg})
+            v = bound.get('ifref')
+            if isinstance(v, ast.Name):
+                hook = f.children.get(v.id) or hook
         r.instance()
         key = f'{f.qname}:resolved-only-when-found'
         if hook is None:
